@@ -41,7 +41,9 @@ fn main() {
                     None => Value::Null,
                 });
                 let (evals, nontrivial) = res.as_ref().map(|o| (o.evals, o.nontrivial)).unwrap_or((1, 0));
-                let rec = json!({"op": op, "in": input, "out": obs});
+                // "abnormal": the call panicked (a hang is recorded by the watchdog below)
+                let abnormal = obs.get("panic").is_some();
+                let rec = json!({"op": op, "in": input, "out": obs, "abnormal": if abnormal { "T" } else { "F" }});
                 let sample = if i % 997 == 3 { Some(rec.clone()) } else { None };
                 tx.send(Msg::Rec { line: rec.to_string(), evals, nontrivial, sample }).unwrap();
             }
@@ -69,7 +71,7 @@ fn main() {
             Err(_) => {
                 // a hang is an observable outcome that no specification outcome equals
                 let cur: Value = serde_json::from_str(&current.lock().unwrap()).unwrap_or(Value::Null);
-                writeln!(w, "{}", json!({"op": cur["op"], "in": cur["in"], "out": {"timeout": wd}})).unwrap();
+                writeln!(w, "{}", json!({"op": cur["op"], "in": cur["in"], "out": {"timeout": wd}, "abnormal": "T"})).unwrap();
                 recs += 1;
                 break;
             }
